@@ -77,9 +77,10 @@ func (m *ModelServer) relativeAdjustment(relative map[string]int32) resource.Upd
 			// find the value index in our supported values, and adjust the value to the new index based on adjustment
 			for i, value := range values {
 				if value.Name == oldValue {
-					newI := (int32(i) + adjustment) % int32(len(values))
+					// 64 bit arithmetic: int32(i)+adjustment can overflow for adjustments near the int32 limits
+					newI := (int64(i) + int64(adjustment)) % int64(len(values))
 					if newI < 0 {
-						newI = int32(len(values)) + newI
+						newI = int64(len(values)) + newI
 					}
 					newVal.Values[modeName] = values[newI].Name
 					continue adjustments
